@@ -18,6 +18,24 @@ Theorem C15_lockset : forall a b, In a lockset_table -> In b lockset_table -> co
 Proof. exact lockset. Qed.
 Print Assumptions C15_lockset.
 
+(* No lost wake-up (the assumption under which the LTS treats a wait as enabled exactly when its predicate holds): in every
+   public method of threadsafe_queue a push is followed by a notification of the condition variable the consumers wait
+   on, and a write of a flag read by the wait predicate is followed by notify_all. *)
+Theorem C15_wakeup_discipline : wake_discipline "threadsafe_queue" members_threadsafe_queue methods_threadsafe_queue = true.
+Proof. exact wake_discipline_ok. Qed.
+Print Assumptions C15_wakeup_discipline.
+
+Example C15_wakeup_discipline_nonvacuous :
+  let wp := ("wait_and_pop"%string, lookup_ir_nth 1 "wait_and_pop" methods_threadsafe_queue) in
+  wake_discipline "threadsafe_queue" members_threadsafe_queue
+    [wp; ("wake_up"%string, [Lock "m_mutex"; Write "m_stopped"; Unlock "m_mutex"])] = false /\
+  wake_discipline "threadsafe_queue" members_threadsafe_queue
+    [wp; ("wake_up"%string, [Lock "m_mutex"; Write "m_stopped"; Unlock "m_mutex"; NotifyOne "m_cond"])] = false /\
+  wake_discipline "threadsafe_queue" members_threadsafe_queue
+    [wp; ("push"%string, [Lock "m_mutex"; Write "m_data"; PushBack; Unlock "m_mutex"])] = false.
+Proof. vm_compute. auto. Qed.
+Print Assumptions C15_wakeup_discipline_nonvacuous.
+
 (* the LTS is written for exactly the critical sections the headers have now *)
 Theorem C15_skeleton_as_modelled :
   lookup_ir "push" methods_threadsafe_queue = [Lock "m_mutex"; Write "m_data"; PushBack; NotifyOne "m_cond"; Unlock "m_mutex"] /\
